@@ -1,5 +1,6 @@
 import PfModel.DriverVal
 import PfModel.Model.SubPipe
+import PfModel.Model.SubPipeDecide
 /-! Driver for C11 (`pipe.sub`, `pipe.call`, `map.sub`): subpipeline selection (repaired and pinned variant), calling the
 partial pipeline, and `map(output_names=…, auto_subpipeline=…)`. -/
 open Lean PF PF.Drv PF.Sub
@@ -91,6 +92,35 @@ def handle (m : String) (a : Json) : R Json := do
       return jObj [("now", jObj [("kept", jList jStr (sub.map (·.name))), ("outputs", putKw r.outputs), ("calls", jList putCall r.calls),
                                   ("spec_agrees", jBool specOk)]),
                    ("legacy", legacy)]
+  | "map.lenient" =>
+    -- round 3: the answering behaviour for an over-provided request (`mapSubLenient`, = `mapSub` when nothing is over-provided)
+    let fs ← listF getMFunc a "funcs"
+    let inputs ← getKw (← fld a "inputs")
+    let internal := (← optF (asList (asPair asStr (asList asNat))) a "internal").getD []
+    let S ← optNames a "outputs"
+    let auto := (← optF asBool a "auto").getD false
+    match mapSubLenient fs inputs internal S auto with
+    | .error (.sub e) => return jObj [("now", putSErr e), ("at", jStr "subpipeline")]
+    | .error (.map e) => return jObj [("now", putMErr e), ("at", jStr "map")]
+    | .ok (sub, r) =>
+      return jObj [("now", jObj [("kept", jList jStr (sub.map (·.name))), ("outputs", putKw r.outputs), ("calls", jList putCall r.calls)])]
+  | "pipe.computable" =>
+    -- round 3: "S is computable from I" decided over the FULL pipeline (`computableB`, proved ⇔ `Computable` in `C11_computable_decided`)
+    let fs ← listF getFunc a "funcs"
+    let I ← listF asStr a "inputs"
+    let S ← listF asStr a "outputs"
+    return jObj [("computable", jBool (computableB funcNode fs I S)), ("lacking", jList jStr (lackingNames funcNode fs I S)),
+                 ("unknown", jList jStr (unknownOutputs funcNode fs S)),
+                 ("needed", jList jStr ((neededFns funcNode fs I S).map (·.name)))]
+  | "map.computable" =>
+    let fs ← listF getMFunc a "funcs"
+    let inputs ← getKw (← fld a "inputs")
+    let S ← listF asStr a "outputs"
+    let I := akeys inputs
+    return jObj [("computable", jBool (computableB mfuncNode fs I S)), ("lacking", jList jStr (lackingNames mfuncNode fs I S)),
+                 ("unknown", jList jStr (unknownOutputs mfuncNode fs S)),
+                 ("needed", jList jStr ((neededFns mfuncNode fs I S).map (·.name))),
+                 ("extras", jList jStr (extras (neededFns mfuncNode fs I S) inputs))]
   | _ => .error s!"unknown entry {m}"
 
 def main : IO Unit := loop handle
